@@ -134,6 +134,17 @@ Theorem C05_with_slots_all_done : forall (p : NetSlots.pcfg) (len : nat -> nat),
   /\ Slots.tokens (NetSlots.sl s) = 0.
 Proof. exact NetSlots.product_all_done. Qed.
 
+(* a run of the product that cannot be extended has finished everything -- with C05_with_slots_terminates: every execution
+   is finite and ends exactly when all work is done *)
+Theorem C05_with_slots_maximal : forall (p : NetSlots.pcfg) (len : nat -> nat),
+  Inv.wf (NetSlots.ncfg p) len -> (forall v, v < nn (NetSlots.ncfg p) -> NetSlots.pcores p v <= NetSlots.pcap p) ->
+  forall (l : list NetSlots.pact) (s : NetSlots.pst),
+  NetSlots.prun p (NetSlots.pinit p) l = Some s -> (forall a, NetSlots.pstep p s a = None) ->
+  (forall v, v < nn (NetSlots.ncfg p) -> rn (ns (NetSlots.net s) v) = RFin) /\
+  (forall k t, nth_error (Slots.tasks (NetSlots.sl s)) k = Some t -> Slots.st t = Slots.Finished) /\
+  Slots.tokens (NetSlots.sl s) = 0.
+Proof. exact NetSlots.product_maximal_run_completes. Qed.
+
 (* non-vacuity of the product: the diamond with two slots and a process that asks for both *)
 Theorem C05_with_slots_nonvacuous :
   Inv.wf (NetSlots.ncfg NetSlots.pdia) (fun _ => 2)
@@ -151,4 +162,5 @@ Print Assumptions C05_nonvacuous.
 Print Assumptions C05_with_slots_no_deadlock.
 Print Assumptions C05_with_slots_terminates.
 Print Assumptions C05_with_slots_all_done.
+Print Assumptions C05_with_slots_maximal.
 Print Assumptions C05_with_slots_nonvacuous.
